@@ -31,14 +31,15 @@ RULE = (
     'the configuration'
 )
 ASSUMPTIONS = [
-    'reductions compared at rtol 1e-9 (atol 1e-14 on probabilities, 1e-9 on logs); tuple vs object at 1e-13',
+    'reductions compared at rtol 1e-9 (atol 1e-14 on probabilities, 1e-9 on logs); tuple vs object at rtol 1e-9 / atol 1e-12 '
+    '(two builds of the same formula differ in the last ulp: the engine sums ConditionalSum terms in pointer order)',
     'central differences: five-point stencil, h = 1e-3, judged at rtol 1e-6 only where the rounding noise estimate '
     'eps*|G|/(h*|dG/dV_i|) is below 1e-8 (otherwise counted as ill-conditioned); Derive route judged at rtol 1e-9',
     'ln dG/dy_i is compared for available alternatives only (the published convention is G_i = 0 for unavailable ones)',
 ]
-MIN_DISTINCT = {'quick': 250, 'thorough': 3000}
+MIN_DISTINCT = {'quick': 250, 'thorough': 2000}
 CASE_TIMEOUT = 120
-N_RANDOM = {'quick': 300, 'thorough': 4500}
+N_RANDOM = {'quick': 300, 'thorough': 3000}
 
 DIRECTED = [
     {'name': 'alone_alternatives', 'force': {'J': 4, 'av_mode': 'var', 'n_alone': 2, 'util_form': 'var'}},
@@ -51,7 +52,9 @@ DIRECTED = [
 
 P_TOL = (1e-9, 1e-14)
 L_TOL = (1e-9, 1e-9)
-X_TOL = (1e-13, 1e-15)
+# tuple vs objects: same formula, but the engine's ConditionalSum adds its terms in pointer order, so two builds of the
+# same expression can differ in the last ulp of an intermediate (seen: 1.8e-15 absolute on a cancelling ln G_i)
+X_TOL = (1e-9, 1e-12)
 
 
 def cases(seed, tier):
@@ -152,7 +155,7 @@ def run_case(case):
                 sides.append(ev(fn(g.Builder(cfg))))
             except EngineDown:
                 raise
-            except (BiogemeError, TypeError, ValueError, KeyError, AttributeError, IndexError) as e:
+            except Exception as e:  # whatever the library raises on a valid structure refutes the relation
                 viol(f'{name}-{side}-raises-{type(e).__name__}', f'{what}: building/evaluating the {side} side raised {type(e).__name__}: {e}')
                 return
         a, b = sides
@@ -236,7 +239,14 @@ def run_case(case):
                  'get_mev_generating_for_nested: tuple syntax vs nest objects')
 
         # ---- R5 (and term-level R3/R4): generating function vs published ln dG/dy_i ---------------------------
-        _generating(rec, cfg, viol, ev, relations_done)
+        try:
+            _generating(rec, cfg, viol, ev, relations_done)
+        except EngineDown:
+            raise
+        except Exception as e:  # raised by the library while evaluating G / ln G_i on a valid structure
+            import traceback
+
+            viol(f'generating-function-evaluation-raises-{type(e).__name__}', f'{e} | {traceback.format_exc()[-600:]}')
     except EngineDown as e:
         viol('engine-error-on-valid-model', f'the engine raised on a valid specification: {e}')
         return rec.out()
@@ -296,7 +306,7 @@ def _generating(rec, cfg, viol, ev, relations_done):
         terms = models.get_mev_for_nested(V(), AV(), g.Builder(cfg).nl_nests())
         terms_mu = models.get_mev_for_nested_mu(V(), AV(), g.Builder(cfg).nl_nests(), g.Builder(cfg).mu('nl', one=True))
         terms_tuple = models.get_mev_for_nested(V(), AV(), g.Builder(cfg).nl_nests('tuple'))
-    except (BiogemeError, TypeError, ValueError, KeyError, AttributeError) as e:
+    except Exception as e:
         viol(f'generating-function-construction-raises-{type(e).__name__}', str(e))
         return
     g0 = ev(G, dbs['0'])
